@@ -17,8 +17,16 @@ run_one() {
   git -C /repo worktree remove --force $wt
 }
 export -f run_one; export TMP
-printf '%s\n' $IDS | xargs -P 3 -I{} bash -c 'run_one {}' | sort > $OUT.new
-mv $OUT.new $OUT
+printf '%s\n' $IDS | xargs -P 3 -I{} bash -c 'run_one {}' | sort > $OUT.part
+# merge: rows of the ids just run replace the old ones
+touch $OUT; python3 - $OUT $OUT.part <<'PY'
+import sys
+old={l.split('\t')[0]:l for l in open(sys.argv[1]) if l.strip()}
+new={l.split('\t')[0]:l for l in open(sys.argv[2]) if l.strip()}
+old.update(new)
+open(sys.argv[1],'w').write(''.join(old[k] for k in sorted(old)))
+PY
+rm -f $OUT.part
 git -C /repo worktree prune
 rm -rf $TMP
 cat $OUT
